@@ -676,6 +676,9 @@ class Emitter:
         if base == "nth" and recv[0] == "mcall" and recv[2] == "tokens" and len(args) == 1:        # p.tokens().nth(i)
             return self.tr(recv[1], env, cx, lambda t, ty: self.tr(args[0], env, cx, lambda it, _: k(
                 f"(option_map (fun t__ => mk_Token (Cow_Borrowed t__)) (nth_N (str_tokens {self.coerce(t, ty, 'str')}) {it}))", ("opt", ("named", "Token")))))
+        if base == "nth" and recv[0] == "mcall" and recv[2] == "chars" and not recv[3] and len(args) == 1:   # s.chars().nth(i): a CODE POINT
+            return self.tr(recv[1], env, cx, lambda t, ty: self.tr(args[0], env, cx, lambda it, _: k(
+                f"(nth_N (str_chars {self.coerce(t, ty, 'str')}) {it})", ("opt", "N"))))
         if base == "count" and recv[0] == "mcall" and recv[2] == "tokens" and not args:           # p.tokens().count()
             return self.tr(recv[1], env, cx, lambda t, ty: k(f"(len (str_tokens {self.coerce(t, ty, 'str')}))", "N"))
         if base == "split_off" and len(args) == 1 and place_var(recv) in env:
@@ -854,6 +857,8 @@ class Emitter:
                     return f"match {rt} with Some {x} => {k(f'(Some {x})', rty)} | None => {self.apply_closure(args[0], [], env, cx, k)} end"
                 if base == "or" and len(args) == 1:
                     return f"match {rt} with Some {x} => {k(f'(Some {x})', rty)} | None => {self.tr(args[0], env, cx, k)} end"
+                if base in ("expect", "unwrap") and len(args) <= 1:                    # panics on None
+                    return f"match {rt} with Some {x} => {k(x, rty[1])} | None => Panic end"
                 if base == "unwrap_or" and len(args) == 1:
                     return f"match {rt} with Some {x} => {k(x, rty[1])} | None => {self.tr(args[0], env, cx, k)} end"
                 if base == "unwrap_or_else" and len(args) == 1:
@@ -1894,6 +1899,9 @@ CONFIG = {
              "self_ty": "IndexFromRefToken", "ret": ("res", ("named", "Index"), ("named", "ParseIndexError"))},
             {"file": "src/token.rs", "impl": "Token", "name": "to_index", "coq": "gen_Token_to_index"},
             {"file": "src/token.rs", "impl": "Token", "name": "is_next", "coq": "gen_Token_is_next"},
+            {"file": "src/index.rs", "impl": "InvalidCharacterError", "name": "offset", "coq": "gen_InvalidCharacterError_offset"},
+            {"file": "src/index.rs", "impl": "InvalidCharacterError", "name": "source", "coq": "gen_InvalidCharacterError_source"},
+            {"file": "src/index.rs", "impl": "InvalidCharacterError", "name": "char", "coq": "gen_InvalidCharacterError_char", "ret": "N"},
             {"file": "src/index.rs", "impl": "Index", "trait_exact": "fmt::Display", "name": "fmt", "coq": "gen_Index_display", "self_ty": "IndexDisplay",
              "self_type": ("named", "Index"), "self_alias": "Index", "display": True, "ret": "str"},
         ]),
